@@ -9,6 +9,15 @@ NOTE = ("Trusted base: clang 14 front end + clang::CFG, tools/xzfacts.cc, sa/*.p
         "of the property is NOT decided (see DESIGN.md section 4).")
 
 CLAIMED = {
+ "C10": dict(
+  text="Ownership discipline decided on the AST/CFG of all liblzma units: every allocator-owning member of each coder record "
+       "(incl. records embedded by value) is released by the end function stored with it; freed-alias dataflow: no persistent "
+       "pointer is left dangling at a return after lzma_free (found the double free in stream_decoder_mt_init, now fixed); every "
+       "allocation result is NULL-tested before dereference; public stream inits go through lzma_next_strm_init; no lzma_ret "
+       "result is dropped; strong-guarantee APIs store nothing caller-visible before failing. Does NOT decide allocation balance "
+       "for every failing k at run time.",
+  technique="ownership/effect dataflow over clang CFGs, field-coverage joins over record layouts, unused-result rule on resolved callees",
+  ref="4/C10"),
  "C13": dict(
   text="Structural clauses of the Index/file-info APIs decided on the AST/CFG: dup functions copy every semantic member "
        "(found lzma_index_dup dropping 'checks', now fixed); init functions initialise every member; the aggregate counters are "
